@@ -30,6 +30,9 @@ pub struct HistCfg {
   pub bu_over_report: bool,
   /// also sessions that run the bottom-up build twice (same report; the second build must find nothing to do)
   pub bu_twice: bool,
+  /// also sessions whose report is SPLIT over two bottom-up builds: the first build then works from an incomplete report,
+  /// which is outside the quantifier of C03/C04 (only the checker-relative oracles of C08/C09 apply)
+  pub bu_split: bool,
   /// also top-down sessions that are used again after a caught panic (each require caught on its own)
   pub keep_session: bool,
   pub set_fail: bool,
@@ -191,7 +194,7 @@ fn enabled_events(prog: &Prog, cfg: &HistCfg, node: &NodeRec) -> Vec<Event> {
       evs.push(Event::BottomUp { pre: vec![], reported: rep.clone(), then: vec![], builds: 1 });
       if cfg.bu_twice {
         evs.push(Event::BottomUp { pre: vec![], reported: rep.clone(), then: vec![], builds: 2 });
-        if rep.len() >= 2 { evs.push(Event::BottomUp { pre: vec![], reported: rep.clone(), then: vec![], builds: 3 }); }
+        if cfg.bu_split && rep.len() >= 2 { evs.push(Event::BottomUp { pre: vec![], reported: rep.clone(), then: vec![], builds: 3 }); }
       }
       if cfg.bu_then {
         for t in 0..prog.n_tasks() as Tid { evs.push(Event::BottomUp { pre: vec![], reported: rep.clone(), then: vec![t], builds: 1 }); }
